@@ -111,6 +111,13 @@ def fixed():
         checks = [{"op": "verify", "at": ""}, {"op": "diff", "at": ""}] + ([{"op": "verify", "at": "A"}, {"op": "diff", "at": "A"}] if "/" not in pat.rstrip("/") else []) + [{"op": "create", "at": "", "h": ["sha1"], "now": "2026-03-01 12:30:00"}]
         out.append({"profile": "c03-fixed", "root": "root", "tree": tree, "ops": seal + checks,
                     "c03": {"altered": [], "removed": [], "added": [], "patterns": [pat], "late_pattern": None, "n_seal": 4, "n_mut": 0}})
+    # a path that once was the old name of a rename, is recorded again later, and then deleted: it is missing
+    tree = {"a.txt": "first a", "keep.txt": "k", "s/x.txt": "x"}
+    seal = [{"op": "create", "at": "", "h": ["md5"], "now": "2026-03-01 12:00:01"}, {"op": "mv", "src": "a.txt", "dst": "b.txt"},
+            {"op": "create", "at": "", "h": ["md5"], "now": "2026-03-01 12:00:02", "dr": True}, {"op": "write", "path": "a.txt", "data": "a new file under the old name"},
+            {"op": "create", "at": "", "h": ["md5"], "now": "2026-03-01 12:00:03"}]
+    out.append({"profile": "c03-old-name-again", "root": "root", "tree": tree, "ops": seal + [{"op": "rm", "path": "a.txt"}, {"op": "verify", "at": ""}, {"op": "diff", "at": ""}, {"op": "create", "at": "", "h": ["md5"], "now": "2026-03-01 12:30:00"}],
+                "c03": {"altered": [], "removed": ["a.txt"], "added": [], "patterns": [], "late_pattern": None, "n_seal": 5, "n_mut": 1}})
     # names that begin or end with a blank (the report texts cannot be split reliably for such names: judged on exit
     # codes only, which is what the flag says)
     tree = {"notes.txt ": "n", " lead.txt": "l", "Day 1 /x.txt": "x", "plain.txt": "p"}
